@@ -2346,6 +2346,8 @@ class Inliner:
         if v is None:
             v = _clone(func)
             v.body = self._stmts(v.body, 0)
+            if self.extended:
+                self._unpack_through_local(v)
             ast.fix_missing_locations(v)
             for parent in ast.walk(v):
                 for child in ast.iter_child_nodes(parent):
@@ -2353,6 +2355,37 @@ class Inliner:
             v._parent = getattr(func, "_parent", None)  # type: ignore[attr-defined]
             self._views[id(func)] = v
         return v
+
+    def _unpack_through_local(self, v):
+        """``pair = (r, w)`` (or ``pair = None`` on the ways out that are guarded off) ... ``a, b = pair``  ->  ``a = r; b = w`` when r and w are locals
+        bound once: unpacking the local is unpacking the one tuple it can hold (unpacking None would raise)."""
+        binds = _local_bindings(v)
+        tuples: Dict[str, List[ast.AST]] = {}
+        for st in walk_local(v):
+            if isinstance(st, ast.Assign) and len(st.targets) == 1 and isinstance(st.targets[0], ast.Name):
+                tuples.setdefault(st.targets[0].id, []).append(st.value)
+
+        def rewrite(stmts):
+            out = []
+            for st in stmts:
+                for fld in ("body", "orelse", "finalbody"):
+                    if isinstance(getattr(st, fld, None), list) and not isinstance(st, (ast.FunctionDef, ast.AsyncFunctionDef, ast.ClassDef)):
+                        setattr(st, fld, rewrite(getattr(st, fld)))
+                for h in getattr(st, "handlers", []) or []:
+                    h.body = rewrite(h.body)
+                if isinstance(st, ast.Assign) and len(st.targets) == 1 and isinstance(st.targets[0], (ast.Tuple, ast.List)) and isinstance(st.value, ast.Name):
+                    n = st.value.id
+                    vals = [x for x in tuples.get(n, []) if not (isinstance(x, ast.Constant) and x.value is None)]
+                    tg = st.targets[0]
+                    if len(binds.get(n, [])) == len(tuples.get(n, [])) and len(vals) == 1 and isinstance(vals[0], ast.Tuple) and len(vals[0].elts) == len(tg.elts) \
+                            and all(isinstance(e, ast.Name) and len(binds.get(e.id, [])) == 1 for e in vals[0].elts) \
+                            and not any(isinstance(t, ast.Starred) for t in tg.elts):
+                        for t, e in zip(tg.elts, vals[0].elts):
+                            out.append(ast.copy_location(ast.Assign(targets=[t], value=_clone(e), lineno=st.lineno), st))
+                        continue
+                out.append(st)
+            return out
+        v.body = rewrite(v.body)
 
     def not_followed(self, func) -> List[str]:
         """What the view of ``func`` still contains that the normaliser could not read through: calls of private helpers of the analysed classes that
